@@ -335,7 +335,9 @@ def main(chk):
         'actions are axiomatised from the Tokio documentation (notified() registers at creation by snapshotting the notify_waiters generation; '
         'a poll completes iff the generation moved, a permit exists or notify_one picked it), and z3 decides, over a SYMBOLIC SCHEDULE of '
         'all interleavings (<= 2 waiters, <= 2 admin commands chosen by the solver, bounded steps), whether a waiter can be parked forever '
-        'while the pool is not paused.')
+        'while the pool is not paused, or get past the gate on a stale Notify permit while it IS paused and no RESUME has notified since the waiter looked. '
+        '(O3) ConnectionPool::from_config replacing a PAUSED pool: the replacement shares the old pool\'s pause flag and Notify (or wakes its waiters), so that a later '
+        'RESUME reaches the clients parked on the old object. (H) the gate\'s position in Client::handle, transaction and session mode.')
     chk.assumptions += [
         'Tokio Notify semantics as documented (and as read in tokio 1.29.1 sync/notify.rs); AtomicBool accesses sequentially consistent on one location',
         '"no new transaction while paused" (the call site of wait_paused in Client::handle), admin command parsing and per-pool vs global pause are outside the claim',
